@@ -37,6 +37,8 @@ from dask_expr._expr import (
     RenameSeries,
     ResetIndex,
     ToFrame,
+    _row_operands,
+    _rows_root,
     determine_column_projection,
     plain_column_projection,
 )
@@ -995,25 +997,6 @@ class Cov(Reduction):
 
 class Corr(Cov):
     corr = True
-
-
-def _row_operands(expr):
-    # The operands whose rows make up the rows of a length preserving operation
-    broadcast = getattr(
-        expr, "_broadcast_dep", lambda dep: dep.npartitions == 1 and dep.ndim < expr.ndim
-    )
-    return [dep for dep in expr.dependencies() if not broadcast(dep)]
-
-
-def _rows_root(expr):
-    # Follow length preserving operations down to the expression that determines
-    # the rows
-    while expr._is_length_preserving:
-        frames = _row_operands(expr)
-        if len(frames) != 1:
-            break
-        expr = frames[0]
-    return expr
 
 
 class Len(Reduction):
